@@ -252,5 +252,21 @@ PROPS["C02"] = dict(
     assumptions=["system libogg 1.3.5 is correct"],
 )
 
+PROPS["C03"] = dict(
+    engine="rc", engine_name="rc-tape", sources=["props/c03.cpp"], level="exploration", design_ref="3.4", tape_scale=6,
+    quick=dict(cases=800), thorough=dict(cases=20000),
+    technique="structure-aware fuzzing through the tape engine (rapidcheck-generated and shrunk; the same body runs under libFuzzer in the thorough tier): generated chained streams damaged at the page level (with checksum repair), every open mode, generated scripts over all public vorbisfile calls; oracle = ASan/UBSan/LSan + callback work budget + documented return codes + close accounting",
+    level_text="Physical streams: chains of 1..16 encoder/synthetic links (64..4096 blocks, 1..255 channels), then 0..4 damage steps on the page structure (drop, duplicate, move pages; edit granule position, serial number, flags, sequence number, "
+               "version, lacing values; truncate anywhere; bit flips; garbage incl. fake capture patterns between pages; EOS removed; first link appended again = repeated serial number), checksums repaired in 4 of 5 cases. Opens: seekable, "
+               "NULL seek/tell, failing seek, ov_test(+ov_test_open), initial buffers, short-read schedules. Scripts of 2..41 calls: ov_read_float, ov_read (all formats, tiny buffers, bad word sizes), all seeks and lapped seeks with in-range, "
+               "boundary, out-of-range, NaN and infinite arguments, tells, totals, info/comment/bitrate/serialnumber with link indices -2..links+1, bitrate_instant, halfrate, ov_crosslap with a second handle, ov_read_filter, clear twice, "
+               "calls on handles whose open failed. Oracle: no sanitizer report, per-call callback budget, return values in the documented sets, reads never exceed the request, failed opens leave a zeroed handle and an unclosed source, "
+               "close runs exactly once at ov_clear.",
+    level_note="Termination is decided by a deterministic budget of callback invocations per API call (>= 100000 and >= 3600 per 2 KiB of file), plus the per-case CPU budget; it bounds, it does not prove.",
+    rule="case = chain + damage steps + open mode + call script; non-trivial = the open succeeded and at least one read returned data or one seek succeeded; distinct by hash of (case description, return-code history)",
+    require_labels=["open failed", "damaged stream", "intact stream", "seekable", "streaming", "ov_test", "initial buffer", "damaged stream delivered data"],
+    assumptions=["system libogg 1.3.5 is correct"],
+)
+
 NOT_APPLICABLE = {}
 HOOK_COMMITS = []
